@@ -679,3 +679,66 @@ def ip1(proj, rep):
         rep.violation('IP1', f.qual, f'the factors of a term are applied to the ket in list order (`{t}`): a term [A, B] evaluates <psi0|B A|psi1> instead of the '
                       f'documented <psi0|A B|psi1>', m, node)
     return 1
+
+
+# ------------------------------------------------------------------------------------------------ A7 / A8
+RULES['A7'] = ('A7: in the flat-parameter bridge hf_model_wrapper the .grad buffers are cleared BEFORE the backward pass of the same evaluation (torch accumulates '
+               'into .grad): clearing them afterwards returns new + stale gradient on the first call after any earlier backward on the model.')
+RULES['A8'] = ('A8: the hand-written matrix-logarithm backward (PSDMatrixLogm) is selected whenever the tensor whose logarithm is taken can receive a gradient: the '
+               'dispatch condition in front of `logm(T)` mentions `T.requires_grad`. Otherwise autograd differentiates through eigh, whose backward divides by '
+               'eigenvalue gaps (wrong / NaN at degenerate spectra).')
+
+
+def a7(proj, rep):
+    rep.rule('A7', RULES['A7'])
+    f = proj.func('numqi.optimize._internal.hf_model_wrapper')
+    m = f.module
+    rep.touch(m)
+    zero = [c for c in ast.walk(f.node) if isinstance(c, ast.Call) and isinstance(c.func, ast.Attribute) and c.func.attr == 'zero_']
+    back = [c for c in ast.walk(f.node) if isinstance(c, ast.Call) and isinstance(c.func, ast.Attribute) and c.func.attr in ('backward', 'grad_backward')]
+    if not zero or not back:
+        rep.undecided('A7', f.qual, 'zero_() / backward() calls not found', m, f.node, text='zero before backward')
+        return 0
+    if min(c.lineno for c in zero) < min(c.lineno for c in back):
+        rep.ok('A7', f.qual, '.grad buffers are cleared before the backward pass', m, zero[0])
+    else:
+        rep.violation('A7', f.qual, f'`.zero_()` (line {zero[0].lineno}) runs after the backward pass (line {min(c.lineno for c in back)}): gradients left on the model by an '
+                      f'earlier backward (minimize_adam warm-up, a manual loss.backward()) are added to the first gradient returned', m, zero[0])
+    return 1
+
+
+def a8(proj, rep, modules):
+    rep.rule('A8', RULES['A8'])
+    n = 0
+    for mq in modules:
+        m = proj.mod(mq)
+        rep.touch(m)
+        for fi in [f for f in proj.funcs.values() if f.module is m]:
+            for node in ast.walk(fi.node):
+                if not isinstance(node, ast.If):
+                    continue
+                # body computes  X = <get_PSDMatrixLogm(...)>(T)  or  op = get_PSDMatrixLogm(..); X = op(T)
+                src = ast.unparse(ast.Module(body=node.body, type_ignores=[]))
+                if 'PSDMatrixLogm' not in src:
+                    continue
+                ops = {s.targets[0].id for s in node.body if isinstance(s, ast.Assign) and isinstance(s.targets[0], ast.Name) and 'PSDMatrixLogm' in ast.unparse(s.value)}
+                arg = None
+                for s in node.body:
+                    for c in ast.walk(s):
+                        if isinstance(c, ast.Call) and c.args and isinstance(c.args[0], ast.Name):
+                            if (isinstance(c.func, ast.Name) and c.func.id in ops) or (isinstance(c.func, ast.Call) and 'PSDMatrixLogm' in ast.unparse(c.func)):
+                                arg = c.args[0].id
+                if arg is None:
+                    continue
+                n += 1
+                test = ast.unparse(node.test).replace(' ', '')
+                if f'{arg}.requires_grad' in test:
+                    rep.ok('A8', fi.qual, f'logm({arg}) with the custom backward is selected when {arg}.requires_grad', m, node)
+                elif 'requires_grad' in test:
+                    rep.violation('A8', fi.qual, f'`if {ast.unparse(node.test)[:70]}` guards the custom-backward logm({arg}) but does not test `{arg}.requires_grad`: when only '
+                                  f'{arg} carries a gradient, autograd goes through eigh (wrong or NaN gradient at degenerate spectra)', m, node)
+                else:
+                    rep.undecided('A8', fi.qual, f'dispatch condition `{test[:50]}` not recognised', m, node)
+                    n -= 1
+    rep.count('A8.logm_dispatch_sites', n)
+    return n
